@@ -1,0 +1,124 @@
+//! Relation alias operator
+//!
+//! `FROM (SELECT ...) AS d`, `FROM cte AS d`: the logical `SubqueryAlias` node
+//! re-qualifies every output column of its input as `d.<column>`. The physical
+//! plan used to drop the node, so the input's own field names (`x`, `t1.a`)
+//! were all the operators above could see. Column lookup
+//! (`find_column_index`) falls back from `d.x` to the first field called `x`,
+//! hence in
+//!
+//! ```text
+//! SELECT d1.x, d2.x FROM (SELECT a AS x FROM r) d1, (SELECT b AS x FROM r) d2
+//! WITH w AS (...) SELECT t1.c, t2.c FROM w t1 JOIN w t2 ON ...
+//! ```
+//!
+//! `d2.x` / `t2.c` silently read the FIRST input's column. `AliasExec` renames
+//! the fields to the qualified names the logical schema promises; the data is
+//! passed through untouched.
+
+use crate::error::Result;
+use crate::physical::{PhysicalOperator, RecordBatchStream};
+use crate::planner::PlanSchema;
+use arrow::array::RecordBatch;
+use arrow::datatypes::{Field, Schema, SchemaRef};
+use arrow::record_batch::RecordBatchOptions;
+use async_trait::async_trait;
+use futures::StreamExt;
+use std::sync::Arc;
+
+#[derive(Debug)]
+pub struct AliasExec {
+    input: Arc<dyn PhysicalOperator>,
+    schema: SchemaRef,
+}
+
+impl AliasExec {
+    /// Wrap `input` so that every field that corresponds to a column of the
+    /// aliased logical schema is named `<alias>.<column>`. Returns `input`
+    /// itself when nothing would change (e.g. an aliased base-table scan).
+    pub fn wrap(
+        input: Arc<dyn PhysicalOperator>,
+        logical: &PlanSchema,
+        alias: &str,
+    ) -> Arc<dyn PhysicalOperator> {
+        let in_schema = input.schema();
+        let mut changed = false;
+        let fields: Vec<Field> = in_schema
+            .fields()
+            .iter()
+            .map(|f| {
+                let hit = logical.fields().iter().find(|lf| {
+                    f.name() == &lf.name || f.name().ends_with(&format!(".{}", lf.name))
+                });
+                match hit {
+                    Some(lf) => {
+                        let name = format!("{}.{}", alias, lf.name);
+                        if &name != f.name() {
+                            changed = true;
+                        }
+                        f.as_ref().clone().with_name(name)
+                    }
+                    None => f.as_ref().clone(),
+                }
+            })
+            .collect();
+        if !changed {
+            return input;
+        }
+        Arc::new(Self {
+            input,
+            schema: Arc::new(Schema::new(fields)),
+        })
+    }
+}
+
+#[async_trait]
+impl PhysicalOperator for AliasExec {
+    fn schema(&self) -> SchemaRef {
+        self.schema.clone()
+    }
+
+    fn children(&self) -> Vec<Arc<dyn PhysicalOperator>> {
+        vec![self.input.clone()]
+    }
+
+    fn output_partitions(&self) -> usize {
+        self.input.output_partitions()
+    }
+
+    fn name(&self) -> &str {
+        "Alias"
+    }
+
+    async fn execute(&self, partition: usize) -> Result<RecordBatchStream> {
+        crate::physical::check_partition(self, partition)?;
+        let names: Vec<String> = self
+            .schema
+            .fields()
+            .iter()
+            .map(|f| f.name().clone())
+            .collect();
+        let stream = self.input.execute(partition).await?;
+        Ok(Box::pin(stream.map(move |batch| {
+            let batch = batch?;
+            let old = batch.schema();
+            if old.fields().len() != names.len() {
+                return Ok(batch);
+            }
+            // keep the batch's own types / nullability, change the names only
+            let fields: Vec<Field> = old
+                .fields()
+                .iter()
+                .zip(&names)
+                .map(|(f, n)| f.as_ref().clone().with_name(n.clone()))
+                .collect();
+            let schema = Arc::new(Schema::new(fields));
+            let options = RecordBatchOptions::new().with_row_count(Some(batch.num_rows()));
+            Ok(RecordBatch::try_new_with_options(
+                schema,
+                batch.columns().to_vec(),
+                &options,
+            )?)
+        })))
+    }
+}
